@@ -336,6 +336,13 @@ func (e *c05Env) exec(tc *c05Case) (oracle, note string) {
 		if cc == 1000 {
 			return "ws-error-closed-normally", fmt.Sprintf("status %d closed with 1000", tc.Code)
 		}
+		wantCC := 1011 // out-of-range codes
+		if inRange {
+			wantCC = wire.WSCloseCode[int(tc.Code)]
+		}
+		if cc != wantCC {
+			return "ws-close-code", fmt.Sprintf("status %d closed with %d, the mapped close code is %d", tc.Code, cc, wantCC)
+		}
 		got := res.Status.Message
 		if !strings.HasPrefix(tc.Message, got) {
 			return "message-mismatch", fmt.Sprintf("close reason %q is not a prefix of %q", got, tc.Message)
@@ -411,7 +418,7 @@ func c05Cases(thorough bool) []c05Case {
 func runC05(c *Ctx) {
 	r := c.Run
 	r.Rule("protocol{HTTP json/proto/implicit route, Twirp json/proto, gRPC (+proto,+json), gRPC-web (+proto,+json), gRPC-web-text (+proto), gRPC / gRPC-web / gRPC-web-text with gzip message compression negotiated, WebSocket} × shape{unary, client-, server-, bidi-streaming} × error position{before any reply, before any reply but after grpc.SendHeader, after 1, after 2} × code{1..16,17,18,100,2^31,2^32-1} × message{all strings of length <= 3 over {a,%,space,\\n,é} (thorough: length <= 4 over those plus DEL, NUL, a 4-byte rune, '+', '4'), %41, CJK, DEL, control chars, 200×x, lengths 119..126 with and without a multi-byte rune on the close-frame boundary} × details{0,1,2}; plus three messages that are not valid UTF-8 (only 'an error response is produced' is demanded); distinct = (protocol, shape, position, code class, message class) combinations that produced a decodable status")
-	r.Assume("CANCELLED may map to 408 or 499; Twirp HTTP statuses and Twirp names of out-of-range codes are not demanded; the WebSocket close code only has to be a sendable, non-1000 code; error framing after HTTP stream messages is not demanded", "leading/trailing spaces of the message are not representable in a gRPC-web trailer frame and are not compared there")
+	r.Assume("CANCELLED may map to 408 or 499; Twirp HTTP statuses and Twirp names of out-of-range codes are not demanded; the WebSocket close code is larking's exported WSStatusCode table (pinned in ref/wire); error framing after HTTP stream messages is not demanded", "leading/trailing spaces of the message are not representable in a gRPC-web trailer frame and are not compared there")
 	cases := c05Cases(c.Thorough())
 	envs := make([]*c05Env, explore.Workers)
 	explore.ParallelFor(len(cases), func() bool { return r.TooManyViolations() }, func(w, i int) {
